@@ -2,7 +2,7 @@
  *
  * Monitor: every fitted model is replayed in long double against reference-preprocessed X and Y:
  *   t_k = E_{k-1} w_k, p_k = E_{k-1}' t_k / t_k't_k with |p_k| = 1, E_k = E_{k-1} - t_k p_k', E_k' t_j = 0 (j <= k),
- *   T'T and W'W have vanishing off-diagonals (exact for NIPALS whatever the convergence state),
+ *   T'T and W'W have vanishing off-diagonals (exact for NIPALS whatever the convergence state), b_k = u_k't_k/t_k't_k,
  *   PLSScorePredictor(training) = T, and for every number of latent variables a and response j
  *   recalculated_y[:, ny*(a-1)+j] = back-transform(sum_{k<=a} b_k t_k q_jk), recalc_residuals = that - y_j,
  *   PLSYPredictor / PLSYPredictorAllLV(training) = recalculated_y (latent-variable major columns).
@@ -11,6 +11,7 @@
 
 static long ncases(int tier) { return tier ? 200000 : 4000; }
 
+/* GEN-BEGIN (generator shared verbatim by c03.c and c04.c) */
 #define EPS 2.220446049250313e-16
 
 typedef struct {
@@ -22,7 +23,7 @@ typedef struct {
   size_t nxm, nxsc, nym, nysc;
   ld kappa, smin;
   double noise;
-  int corr, lowdim, icpt, regime;
+  int corr, lowdim, icpt, regime, ortho, yorth;
   const char *skip;
 } gcase;
 
@@ -92,10 +93,15 @@ static void gen_case(vh_ctx *c, gcase *g, size_t pmax, size_t nymax, double kmax
   s = calloc(p, sizeof(ld));
   ktarget = vh_logunif(c, 0.0, log10(kmax) - 0.7);
   for (k = 0; k < p; k++) s[k] = (ld)(pow(ktarget, p > 1 ? -(double)k / (double)(p - 1) : 0.0) * vh_range(c, 0.8, 1.25));
+  /* orthogonal design (X_pre'X_pre ~ c I for most scalings): the PLS sequence is complete after one latent variable,
+     the following ones have nothing left to model although nlv <= rank */
+  g->ortho = (p >= 2 && vh_coin(c, 0.04));
+  if (g->ortho) for (k = 0; k < p; k++) s[k] = 1;
   Z = ldm_new(n, p);
   for (i = 0; i < n; i++) for (j = 0; j < p; j++) { ld a = 0; for (k = 0; k < p; k++) a += LM(U, i, k) * s[k] * LM(Q, j, k); LM(Z, i, j) = a; }
   base = vh_range(c, -1.0, 1.0);
   width = (xs == 1 || xs == 2 || xs == 4) ? vh_range(c, 0.0, 3.0) : vh_range(c, 0.0, 1.0);
+  if (g->ortho && xs != 1) width = 0;
   ratio = vh_logunif(c, -0.5, 1.5);
   g->icpt = (xs == -1 && p >= 2 && vh_coin(c, 0.15));
   NewMatrix(&g->mx, n, p);
@@ -139,7 +145,10 @@ static void gen_case(vh_ctx *c, gcase *g, size_t pmax, size_t nymax, double kmax
     double r = vh_unif(c);
     g->noise = NOISE_LEVELS[r < 0.15 ? 0 : r < 0.3 ? 1 : r < 0.6 ? 2 : r < 0.85 ? 3 : 4];
     g->lowdim = (p >= 3 && g->noise > 0 && vh_coin(c, 0.15));
-    g->corr = (ny > 1 && vh_coin(c, 0.4));
+    /* a first response without any information about X (orthogonal to the columns of X_pre and to the constant), given the
+       largest spread so that NIPALS starts from it; the other responses are ordinary */
+    g->yorth = (ny >= 2 && n >= p + 4 && vh_coin(c, 0.04));
+    g->corr = (ny > 1 && !g->yorth && vh_coin(c, 0.4));
     if (g->lowdim) {
       size_t rdim = (size_t)vh_int(c, 1, (long)p - 1);
       for (j = 0; j < ny; j++) for (k = 0; k < rdim; k++) { ld co = vh_gauss(c); for (i = 0; i < n; i++) LM(S, i, j) += co * LM(Us, i, k); }
@@ -155,6 +164,19 @@ static void gen_case(vh_ctx *c, gcase *g, size_t pmax, size_t nymax, double kmax
       if (v < 1e-9L) { g->skip = "signal without spread"; v = 1; }
       for (i = 0; i < n; i++) LM(S, i, j) = LM(S, i, j) / v + (ld)(g->noise * vh_gauss(c));
     }
+    if (g->yorth) {
+      ld *v = calloc(n, sizeof(ld)); int pass;
+      for (i = 0; i < n; i++) v[i] = vh_gauss(c);
+      for (pass = 0; pass < 3; pass++) {
+        ld m = 0;
+        for (i = 0; i < n; i++) m += v[i];
+        m /= n;
+        for (i = 0; i < n; i++) v[i] -= m;
+        for (k = 0; k < p; k++) { ld d = 0; for (i = 0; i < n; i++) d += v[i] * LM(Us, i, k); for (i = 0; i < n; i++) v[i] -= d * LM(Us, i, k); }
+      }
+      for (i = 0; i < n; i++) LM(S, i, 0) = v[i];
+      free(v);
+    }
     if (g->corr) for (j = 1; j < ny; j++) { double sg = vh_coin(c, 0.5) ? 1 : -1, own = vh_range(c, 0.05, 0.5); for (i = 0; i < n; i++) LM(S, i, j) = sg * LM(S, i, 0) + own * LM(S, i, j); }
     NewMatrix(&g->my, n, ny);
     {
@@ -162,6 +184,7 @@ static void gen_case(vh_ctx *c, gcase *g, size_t pmax, size_t nymax, double kmax
       for (j = 0; j < ny; j++) {
         ld m = 0, v = 0; double unit = vh_logunif(c, -1.0, 2.5), off = 100.0 * (double)(j + (shift ? 1 : 0));
         if (unit < 0.1) unit = 0.1;
+        if (g->yorth) unit = j == 0 ? 400.0 : unit > 100.0 ? 100.0 : unit;
         for (i = 0; i < n; i++) m += LM(S, i, j);
         m /= n;
         for (i = 0; i < n; i++) v += (LM(S, i, j) - m) * (LM(S, i, j) - m);
@@ -187,6 +210,8 @@ static void gen_case(vh_ctx *c, gcase *g, size_t pmax, size_t nymax, double kmax
   }
 }
 
+/* GEN-END */
+
 static void check_stats(vh_ctx *c, const char *blk, dvector *avg, dvector *scl, const ld *mean, const ld *scale, size_t nmean, size_t nscale, int type)
 {
   size_t j; char key[96];
@@ -211,25 +236,17 @@ static void check_stats(vh_ctx *c, const char *blk, dvector *avg, dvector *scl, 
 
 static int shape_is(matrix *m, size_t r, size_t cc) { return m->row == r && m->col == cc; }
 
-static void run_case(vh_ctx *c)
+/* fit with nlv latent variables and judge every clause */
+static void judge_model(vh_ctx *c, const gcase *gp, size_t nlv)
 {
-  gcase g;
-  size_t n, p, ny, nlv, i, j, k, a;
+  gcase g = *gp;      /* shallow view: nothing is freed here */
+  size_t n = g.n, p = g.p, ny = g.ny, i, j, k, a;
   PLSMODEL *m = NULL;
   matrix *mx0, *my0;
   ldm *E = NULL, *FIT = NULL, *REC = NULL;
-  ld SX, maxw = 1;
+  ld SX, SYP = 0, maxw = 1;
   ld *tn = NULL, *wn = NULL, *SY = NULL;
 
-  gen_case(c, &g, 12, 4, 1e4);
-  n = g.n; p = g.p; ny = g.ny;
-  vh_class(c, "n%s-p%s-ny%zu-xs%d-ys%d", n < 10 ? "6-9" : n < 20 ? "10-19" : "20-40", p == 1 ? "1" : p < 5 ? "2-4" : "5-12", ny, g.xs, g.ys);
-  vh_desc(c, "rows=%zu cols=%zu responses=%zu xscaling=%d yscaling=%d regime=%d noise=%g corr=%d lowdim=%d intercept_col=%d kappa=%.3Lg",
-          n, p, ny, g.xs, g.ys, g.regime, g.noise, g.corr, g.lowdim, g.icpt, g.kappa);
-  if (g.skip) { vh_skip(c, "%s", g.skip); gcase_free(&g); return; }
-  nlv = vh_coin(c, 0.4) ? p : (size_t)vh_int(c, 1, (long)p);
-  { char base[160]; snprintf(base, sizeof base, "%s", c->cls); vh_class(c, "%s-nlv%s", base, nlv == p ? "=rank" : "<rank"); }
-  vh_desc(c, " nlv=%zu x00=%.17g y00=%.17g", nlv, g.mx->data[0][0], g.my->data[0][0]);
   mx0 = matrix_dup(g.mx); my0 = matrix_dup(g.my);
 
   NewPLSModel(&m);
@@ -267,6 +284,11 @@ static void run_case(vh_ctx *c)
   }
   SX = sqrtl(SX);
   SY = calloc(ny, sizeof(ld));
+  for (i = 0; i < n; i++) for (j = 0; j < ny; j++) {
+    ld sc = g.nysc ? fabsl(g.ysc[j]) : 1, v = (fabsl(LM(g.Y, i, j)) + (g.nym ? fabsl(g.ym[j]) : 0)) / sc;
+    SYP += v * v;
+  }
+  SYP = sqrtl(SYP);
 
   E = ldm_copy(g.Xp);
   FIT = ldm_new(n, ny);     /* sum_{k<=a} b_k t_k q_jk in preprocessed units */
@@ -281,6 +303,28 @@ static void run_case(vh_ctx *c)
   }
   for (k = 0; k < nlv; k++) {
     ld pn = 0, worst, uu = 0, eun = 0, ampT, ampW;
+    if (tn[k] == 0 && wn[k] == 0) {
+      /* a null latent variable is the library's answer to "nothing left to model". That is acceptable only when it is
+         completely null (no contribution to any prediction) and the oracle agrees that no covariance is left between the deflated
+         X and ANY deflated response: |E'F|_F <= 1e-6 |E|_F |F|_F (the library's own threshold is 1e-12 on one response) */
+      ld ef = 0, en = ldm_frob(E), fn = 0; int clean = m->b->data[k] == 0;
+      for (i = 0; i < n; i++) if (m->yscores->data[i][k] != 0) clean = 0;
+      for (j = 0; j < p; j++) if (m->xloadings->data[j][k] != 0) clean = 0;
+      for (j = 0; j < ny; j++) if (m->yloadings->data[j][k] != 0) clean = 0;
+      if (!clean) { vh_fail(c, "PLS|zero-component", "LV %zu has t = 0 and w = 0 but a non-zero p, u, q or b", k + 1); goto out; }
+      for (j = 0; j < ny; j++) for (i = 0; i < n; i++) { ld f = LM(g.Yp, i, j) - LM(FIT, i, j); fn += f * f; }
+      fn = sqrtl(fn);
+      for (j = 0; j < p; j++) { size_t r; for (r = 0; r < ny; r++) { ld sdot = 0; for (i = 0; i < n; i++) sdot += LM(E, i, j) * (LM(g.Yp, i, r) - LM(FIT, i, r)); ef += sdot * sdot; } }
+      ef = sqrtl(ef);
+      vh_obs("null_latent_variables", 1);
+      if (en > 0 && fn > 0) vh_max("max_covariance_left_at_null_lv_rel", (double)(ef / (en * fn)));
+      /* a deflated block that is itself rounding residue (response already reproduced to 1e-9 of its data scale, X used up) has no direction */
+      if (fn <= 1e-9L * SYP || en <= 1e-9L * SX) vh_obs("null_latent_variables_block_exhausted", 1);
+      else if (ef > 1e-6L * en * fn && !(k > 0 && tn[k - 1] == 0))      /* reported once: the following ones are null for the same reason */
+        vh_fail(c, "PLS|null-component-with-covariance-left", "LV %zu of %zu (rank %zu) is null although |E'F| = %.3Lg with |E| = %.3Lg |F| = %.3Lg (ratio %.3Lg): some response can still be modelled",
+                k + 1, nlv, p, ef, en, fn, ef / (en * fn));
+      goto recalc;
+    }
     if (!(tn[k] > 0) || !(wn[k] > 0)) { vh_fail(c, "PLS|zero-component", "LV %zu has |t|=%.3Lg |w|=%.3Lg with nlv <= rank", k + 1, tn[k], wn[k]); goto out; }
     /* (1) score definition t_k = E_{k-1} w_k : rounding eps * SX * |w_k| (deflation and product in double) */
     worst = 0;
@@ -315,6 +359,7 @@ static void run_case(vh_ctx *c)
     /* (3) orthogonality of scores and of weights (cosines) */
     for (i = 0; i < k; i++) {
       ld dt = 0, dw = 0; size_t r;
+      if (tn[i] == 0) continue;     /* null latent variable (judged above) */
       for (r = 0; r < n; r++) dt += (ld)m->xscores->data[r][i] * m->xscores->data[r][k];
       for (r = 0; r < p; r++) dw += (ld)m->xweights->data[r][i] * m->xweights->data[r][k];
       dt = fabsl(dt) / (tn[i] * tn[k]); dw = fabsl(dw) / (wn[i] * wn[k]);
@@ -335,12 +380,22 @@ static void run_case(vh_ctx *c)
       vh_max("max_residual_dot_score_over_eps_SX_t_w", (double)(worst / (EPS * SX * tn[i] * maxw)));
       if (worst > 1e5 * EPS * SX * tn[i] * maxw) vh_fail(c, "PLS|residual-orthogonal-to-scores", "after %zu LVs |E't_%zu|max = %.3Lg (SX|t|maxw = %.3Lg)", k + 1, i + 1, worst, SX * tn[i] * maxw);
     }
+    /* (4b) inner relation of the stored vectors: b_k = u_k't_k / t_k't_k */
+    {
+      ld ut = 0, d, unit;
+      for (i = 0; i < n; i++) ut += (ld)m->yscores->data[i][k] * m->xscores->data[i][k];
+      d = fabsl(ut / (tn[k] * tn[k]) - m->b->data[k]);
+      unit = EPS * (sqrtl(uu) / tn[k] + fabsl((ld)m->b->data[k]));
+      vh_max("max_b_vs_utt_over_eps_scale", (double)(d / unit));
+      if (d > 1e4 * unit) vh_fail(c, "PLS|inner-relation-b", "LV %zu: b = %.17g but u't/t't = %.17Lg", k + 1, m->b->data[k], ut / (tn[k] * tn[k]));
+    }
     /* (5) y loadings: unit vector (one response: exactly 1) */
     {
       ld qn = 0;
       for (j = 0; j < ny; j++) qn += (ld)m->yloadings->data[j][k] * m->yloadings->data[j][k];
       if (ny == 1 ? m->yloadings->data[0][k] != 1.0 : fabsl(sqrtl(qn) - 1) > 1e-11L) vh_fail(c, "PLS|yloading-norm", "LV %zu: |q| = %.17Lg (ny=%zu)", k + 1, sqrtl(qn), ny);
     }
+  recalc:
     /* (6) recalculated responses and residuals with k+1 latent variables, every response */
     for (i = 0; i < n; i++) for (j = 0; j < ny; j++) LM(FIT, i, j) += (ld)m->b->data[k] * m->xscores->data[i][k] * m->yloadings->data[j][k];
     for (j = 0; j < ny; j++) {
@@ -438,6 +493,26 @@ out:
   ldm_free(E); ldm_free(FIT); ldm_free(REC); free(tn); free(wn); free(SY);
   DelPLSModel(&m);
   DelMatrix(&mx0); DelMatrix(&my0);
+}
+
+static void run_case(vh_ctx *c)
+{
+  gcase g;
+  size_t n, p, ny, nlv, nlv2;
+
+  gen_case(c, &g, 12, 4, 1e4);
+  n = g.n; p = g.p; ny = g.ny;
+  vh_class(c, "n%s-p%s-ny%zu-xs%d-ys%d", n < 10 ? "6-9" : n < 20 ? "10-19" : "20-40", p == 1 ? "1" : p < 5 ? "2-4" : "5-12", ny, g.xs, g.ys);
+  vh_desc(c, "rows=%zu cols=%zu responses=%zu xscaling=%d yscaling=%d regime=%d noise=%g corr=%d lowdim=%d intercept_col=%d orthogonal_design=%d uninformative_first_response=%d kappa=%.3Lg",
+          n, p, ny, g.xs, g.ys, g.regime, g.noise, g.corr, g.lowdim, g.icpt, g.ortho, g.yorth, g.kappa);
+  if (g.skip) { vh_skip(c, "%s", g.skip); gcase_free(&g); return; }
+  /* two models per data set: one with nlv = rank and one below the rank (when the rank allows); the class records the first */
+  nlv = vh_coin(c, 0.4) ? p : (size_t)vh_int(c, 1, (long)p);
+  nlv2 = nlv == p ? (p > 1 ? (size_t)vh_int(c, 1, (long)p - 1) : 0) : p;
+  { char base[160]; snprintf(base, sizeof base, "%s", c->cls); vh_class(c, "%s-nlv%s", base, nlv == p ? "=rank" : "<rank"); }
+  vh_desc(c, " nlv=%zu second_nlv=%zu x00=%.17g y00=%.17g", nlv, nlv2, g.mx->data[0][0], g.my->data[0][0]);
+  judge_model(c, &g, nlv);
+  if (nlv2) judge_model(c, &g, nlv2);
   gcase_free(&g);
 }
 
